@@ -55,16 +55,46 @@ int compat_futex_async(int32_t *uaddr, int op, int32_t val, const struct timespe
 #define BIGV 1000000L
 
 /* ------------------------------------------------------------------ flavor */
-static NS void fl_reg(void) { if (vrt_self() >= 0) vrt_log("\"op\":\"reg\""); }
-static NS void fl_unreg(void) { if (vrt_self() >= 0) vrt_log("\"op\":\"unreg\""); }
+/* LR_QSBR=1 (scenario flag "qsbr", spec constant Qsbr): the abstract flavor behaves like QSBR.  A thread is ONLINE from
+ * register_thread() / thread_online() to unregister_thread() / thread_offline(): one long read-side section (abs_cs[t] keeps one id) in
+ * which read_lock / read_unlock only count nesting; synchronize_rcu() takes an online caller offline while it waits (urcu-qsbr.c does).
+ * Scenario threads are offline between operations (their read_lock opens an ordinary section).  Otherwise (default): the abstract flavor
+ * of absrcu.h, register / online are logged no-ops. */
+static int qsbr_mode, q_online[ABS_MAXT];
+static NS void q_go_online(int t) { if (qsbr_mode && t >= 0 && !q_online[t]) { q_online[t] = 1; if (!abs_nest[t]) abs_cs[t] = abs_cs_next++; } }
+static NS void q_go_offline(int t) { if (qsbr_mode && t >= 0 && q_online[t]) { q_online[t] = 0; if (!abs_nest[t]) abs_cs[t] = 0; } }
+static NS void fl_reg(void) { if (vrt_self() >= 0) { q_go_online(vrt_self()); vrt_log("\"op\":\"reg\""); } }
+static NS void fl_unreg(void) { if (vrt_self() >= 0) { q_go_offline(vrt_self()); vrt_log("\"op\":\"unreg\""); } }
 static NS void fl_atfork(struct urcu_atfork *a) { (void) a; }
 /* QSBR-style bracket of a library-internal read-side section (cds_lfht_is_empty(): if (!read_ongoing()) { thread_online(); read_lock(); } ...):
- * no-ops for the abstract flavor, but logged so that the specification sees the bracket */
-static NS void fl_online(void) { if (vrt_self() >= 0) vrt_log("\"op\":\"online\""); }
-static NS void fl_offline(void) { if (vrt_self() >= 0) vrt_log("\"op\":\"offline\""); }
+ * logged so that the specification sees the bracket */
+static NS void fl_online(void) { if (vrt_self() >= 0) { q_go_online(vrt_self()); vrt_log("\"op\":\"online\""); } }
+static NS void fl_offline(void) { if (vrt_self() >= 0) { q_go_offline(vrt_self()); vrt_log("\"op\":\"offline\""); } }
+static NS void fl_read_lock(void)
+{
+	int t = vrt_self();
+	if (t >= 0 && q_online[t]) { if (abs_nest[t]++ == 0) vrt_log("\"op\":\"rlock\",\"cs\":%lu", abs_cs[t]); }
+	else abs_read_lock();
+}
+static NS void fl_read_unlock(void)
+{
+	int t = vrt_self();
+	if (t >= 0 && q_online[t]) {
+		if (abs_nest[t] <= 0) vrt_fail("ORACLE rcu_read_unlock without matching lock");
+		if (--abs_nest[t] == 0) vrt_log("\"op\":\"runlock\",\"cs\":%lu", abs_cs[t]);
+	} else abs_read_unlock();
+}
+static NS int fl_read_ongoing(void) { int t = vrt_self(); return t >= 0 && (q_online[t] || abs_nest[t] > 0); }
+static NS void fl_synchronize_rcu(void)
+{
+	int t = vrt_self(), was = t >= 0 && q_online[t];
+	if (was) { if (abs_nest[t] > 0) vrt_fail("ORACLE synchronize_rcu called inside a read-side critical section"); q_go_offline(t); }
+	abs_synchronize_rcu();
+	if (was) q_go_online(t);
+}
 static const struct rcu_flavor_struct drv_flavor = {
-	.read_lock = abs_read_lock, .read_unlock = abs_read_unlock, .read_ongoing = abs_read_ongoing,
-	.read_quiescent_state = abs_noop, .update_call_rcu = abs_call_rcu, .update_synchronize_rcu = abs_synchronize_rcu,
+	.read_lock = fl_read_lock, .read_unlock = fl_read_unlock, .read_ongoing = fl_read_ongoing,
+	.read_quiescent_state = abs_noop, .update_call_rcu = abs_call_rcu, .update_synchronize_rcu = fl_synchronize_rcu,
 	.update_defer_rcu = NULL, .thread_offline = fl_offline, .thread_online = fl_online,
 	.register_thread = fl_reg, .unregister_thread = fl_unreg, .barrier = abs_barrier,
 	.register_rculfhash_atfork = fl_atfork, .unregister_rculfhash_atfork = fl_atfork,
@@ -180,6 +210,7 @@ static void do_lookup(int key)
 static void *runner(void *arg)
 {
 	struct prog *p = arg;
+	q_go_online(vrt_self());	/* LR_QSBR: scenario threads are registered QSBR readers, online until they finish */
 	vrt_set_cpu(p->cpu);
 	for (int k = 0; k < p->nops; k++) {
 		struct op *o = &p->ops[k]; long r = 0;
@@ -220,6 +251,7 @@ static void *runner(void *arg)
 		vrt_log("\"op\":\"ret\",\"api\":\"%s\",\"r\":%ld", o->kind, r);
 	}
 	p->fin = 1;
+	q_go_offline(vrt_self());
 	vrt_log("\"op\":\"fin\"");
 	return NULL;
 }
@@ -257,6 +289,7 @@ static NS void final_check(void)
 int main(int argc, char **argv)
 {
 	struct vrt_opts o; vrt_parse_args(argc, argv, &o);
+	qsbr_mode = getenv("LR_QSBR") && atoi(getenv("LR_QSBR"));
 	FILE *f = fopen(argc > 4 ? argv[4] : "/dev/null", "r"); char line[256]; struct prog *cur = NULL;
 	if (!f) { perror("program"); return 2; }
 	while (fgets(line, sizeof line, f)) {
